@@ -2,7 +2,7 @@
    EVERY grant policy, and never touch octets that were not granted (no Panic
    on the least forgiving source). *)
 From Coq Require Import Lia ZifyBool ZifyN.
-Require Import BV.Model.Base BV.Model.SrcB BV.Model.Source.
+Require Import BV.Model.Base BV.Model.SrcB BV.Model.Length BV.Model.Tag BV.Model.Source.
 Require Import BV.Proofs.Bits BV.Proofs.SrcBP BV.Proofs.WinP.
 Arguments N.add : simpl never. Arguments N.sub : simpl never.
 Arguments N.ltb : simpl never. Arguments N.leb : simpl never. Arguments N.eqb : simpl never.
@@ -236,9 +236,207 @@ Proof.
   destruct ra; cbn [fst snd]; auto.
 Qed.
 
+Lemma len_visible_A r : len (visible (absA r)) = avail (absA r).
+Proof.
+  rewrite visible_eq. unfold avail, absA. cbn [lim rem]. destruct (rlim r) as [l|]; [|reflexivity].
+  unfold len, firstN. rewrite firstn_length. lia.
+Qed.
+
+Lemma peek_grant pol i r b r' : raw_ok r -> peek_A pol i r = (Ok b, r') ->
+  i + 1 <= vis r' /\ raw_ok r' /\ absA r' = absA r /\
+  skipN i (visible (absA r)) = b :: skipN (i + 1) (visible (absA r)).
+Proof.
+  intros Hok E. pose proof (peek_refines pol i r Hok) as HR. rewrite E in HR. destruct HR as [H1 H2].
+  destruct (requestA_spec pol (i + 1) r Hok) as (g & r1 & Hr & Hok1 & Hd & Hl & Hg & Hle & Hge).
+  unfold peek_A, bindA in E. rewrite Hr in E. destruct (g <=? i) eqn:Eg; [discriminate|].
+  unfold indexA in E. destruct (skipN i (sliceA r1)); inversion E; subst.
+  repeat split; try assumption. lia.
+Qed.
+
+Lemma peek_none pol i r r' : raw_ok r -> peek_A pol i r = (CErr, r') ->
+  raw_ok r' /\ absA r' = absA r /\ skipN i (visible (absA r)) = [].
+Proof.
+  intros Hok E. pose proof (peek_refines pol i r Hok) as HR. pose proof (peek_A_state pol i r Hok) as HS.
+  rewrite E in HR, HS. destruct HR as [H1 H2]. cbn [snd] in HS.
+  repeat split; try assumption. apply skipN_nil_ge, H1.
+Qed.
+
+Lemma peek_total pol i r : raw_ok r ->
+  (exists b r', peek_A pol i r = (Ok b, r')) \/ (exists r', peek_A pol i r = (CErr, r')).
+Proof.
+  intro Hok. pose proof (peek_refines pol i r Hok) as HR.
+  destruct (peek_A pol i r) as [[b| | | |] r']; try contradiction; eauto.
+Qed.
+
+(* advance(n) within the grant *)
+Lemma advance_refines n r : raw_ok r -> n <= vis r -> Ref (advanceA n r) (advance n (absA r)).
+Proof.
+  intros Hok Hn. unfold Ref, advanceA, advance, absA, vis, raw_ok in *. cbn [rem lim flt].
+  destruct (rlim r) as [l|].
+  - replace (l <? n) with false by lia. replace (rgr r <? n) with false by lia.
+    replace (len (rdata r) <? n) with false by lia. cbn [fst snd rdata rlim rgr].
+    repeat split. rewrite len_skipN. lia.
+  - replace (rgr r <? n) with false by lia.
+    replace (len (rdata r) <? n) with false by lia. cbn [fst snd rdata rlim rgr].
+    repeat split. rewrite len_skipN. lia.
+Qed.
+
+Lemma fin_refines e c t n r : raw_ok r -> n <= vis r -> tag_encoded_len t = n ->
+  Ref (tagif_fin e c t n r)
+      ((if tag_eqb t e then advance (tag_encoded_len t) ;;; ret (Some c) else ret None) (absA r)).
+Proof.
+  intros Hok Hn Hl. destruct t as [[[a0 a1] a2] a3], e as [[[b0 b1] b2] b3]. rewrite Hl.
+  unfold tagif_fin, tag_eqb.
+  destruct ((a0 =? b0) && (a1 =? b1) && (a2 =? b2) && (a3 =? b3)).
+  - apply Ref_bind; [apply advance_refines; assumption|].
+    intros [] r' Hr'. unfold Ref, retA, ret. cbn [fst snd]. auto.
+  - unfold Ref, retA, ret. cbn [fst snd]. auto.
+Qed.
+
+Lemma tick_A r : tick (absA r) = (Ok tt, absA r).
+Proof. reflexivity. Qed.
+
+Lemma bind_tick_A {T U} (x : M T) (k : T -> M U) r : bind (tick ;;; x) k (absA r) = bind x k (absA r).
+Proof. unfold bind. rewrite tick_A. reflexivity. Qed.
+Lemma bind_cerr {T U} (k : T -> M U) s : bind cerr k s = (CErr, s).
+Proof. reflexivity. Qed.
+Lemma bind_ret {T U} (t : T) (k : T -> M U) s : bind (ret t) k s = k t s.
+Proof. reflexivity. Qed.
+
+Lemma skipN_0 {T} (l : list T) : skipN 0 l = l.
+Proof. reflexivity. Qed.
+
+Theorem tagif_refines pol e r : raw_ok r -> Ref (tagif_A pol e r) (tag_take_from_if e (absA r)).
+Proof.
+  intro Hok.
+  destruct (requestA_spec pol 1 r Hok) as (g & r1 & Hr & Hok1 & Hd & Hl & Hg & Hle & Hge).
+  assert (Ea : absA r1 = absA r) by (unfold absA; rewrite Hd, Hl; reflexivity).
+  pose proof (len_visible_A r) as Hv.
+  unfold tag_take_from_if, bind at 1. rewrite tick_A. unfold bind at 1, get_visible.
+  unfold tagif_A, bindA at 1. rewrite Hr.
+  destruct (g <? 1) eqn:Eg.
+  - (* nothing visible: absent *)
+    destruct (visible (absA r)) as [|b v1] eqn:Evis; [|rewrite len_cons in Hv; lia].
+    unfold Ref, retA, ret. cbn [fst snd]. auto.
+  - (* the first octet *)
+    pose proof (peek_total pol 0 r Hok) as [(b & r1' & E0)|(r1' & E0)].
+    2:{ unfold peek_A, bindA in E0. change (0 + 1) with 1 in E0. rewrite Hr in E0.
+        replace (g <=? 0) with false in E0 by lia. unfold indexA in E0.
+        destruct (skipN 0 (sliceA r1)); discriminate. }
+    destruct (peek_grant pol 0 r b r1' Hok E0) as (Hg0 & _ & _ & Hv0).
+    unfold peek_A, bindA in E0. change (0 + 1) with 1 in E0, Hg0, Hv0. rewrite Hr in E0.
+    replace (g <=? 0) with false in E0 by lia.
+    assert (r1' = r1) by (unfold indexA in E0; destruct (skipN 0 (sliceA r1)); congruence). subst r1'.
+    unfold bindA at 1. rewrite E0. rewrite skipN_0 in Hv0. rewrite Hv0.
+    set (v := visible (absA r)) in *.
+    unfold tag_peek, clear_cons, is_cons.
+    destruct (N.land (N.land b 223) 31 =? 31) eqn:Eh.
+    2:{ rewrite bind_ret, <- Ea. apply fin_refines; [assumption|assumption|].
+        unfold tag_encoded_len. rewrite (N.land_comm 31), Eh. reflexivity. }
+    rewrite bind_tick_A.
+    destruct (peek_total pol 1 r1 Hok1) as [(d1 & r2 & E1)|(r2 & E1)].
+    2:{ destruct (peek_none pol 1 r1 r2 Hok1 E1) as (Hok2 & Ea2 & Hn). rewrite Ea in Hn, Ea2. fold v in Hn.
+        rewrite Hn, bind_cerr. unfold bindA at 1. rewrite E1. unfold Ref. cbn [fst snd]. auto. }
+    destruct (peek_grant pol 1 r1 d1 r2 Hok1 E1) as (Hg1 & Hok2 & Ea2 & Hv1).
+    rewrite Ea in Hv1, Ea2. fold v in Hv1. change (1 + 1) with 2 in *. rewrite Hv1.
+    unfold bindA at 1. rewrite E1.
+    destruct (N.land d1 128 =? 0) eqn:E128.
+    { rewrite bind_ret, <- Ea2. apply fin_refines; [assumption|assumption|].
+      unfold tag_encoded_len. rewrite (N.land_comm 31), Eh, (N.land_comm 128), E128. reflexivity. }
+    rewrite bind_tick_A.
+    destruct (peek_total pol 2 r2 Hok2) as [(d2 & r3 & E2)|(r3 & E2)].
+    2:{ destruct (peek_none pol 2 r2 r3 Hok2 E2) as (Hok3 & Ea3 & Hn). rewrite Ea2 in Hn, Ea3. fold v in Hn.
+        rewrite Hn, bind_cerr. unfold bindA at 1. rewrite E2. unfold Ref. cbn [fst snd]. auto. }
+    destruct (peek_grant pol 2 r2 d2 r3 Hok2 E2) as (Hg2 & Hok3 & Ea3 & Hv2).
+    rewrite Ea2 in Hv2, Ea3. fold v in Hv2. change (2 + 1) with 3 in *. rewrite Hv2.
+    unfold bindA at 1. rewrite E2.
+    destruct (N.land d2 128 =? 0) eqn:E228.
+    { rewrite bind_ret, <- Ea3. apply fin_refines; [assumption|assumption|].
+      unfold tag_encoded_len. rewrite (N.land_comm 31), Eh, (N.land_comm 128 d1), E128, (N.land_comm 128), E228. reflexivity. }
+    rewrite bind_tick_A.
+    destruct (peek_total pol 3 r3 Hok3) as [(d3 & r4 & E3)|(r4 & E3)].
+    2:{ destruct (peek_none pol 3 r3 r4 Hok3 E3) as (Hok4 & Ea4 & Hn). rewrite Ea3 in Hn, Ea4. fold v in Hn.
+        rewrite Hn, bind_cerr. unfold bindA at 1. rewrite E3. unfold Ref. cbn [fst snd]. auto. }
+    destruct (peek_grant pol 3 r3 d3 r4 Hok3 E3) as (Hg3 & Hok4 & Ea4 & Hv3).
+    rewrite Ea3 in Hv3, Ea4. fold v in Hv3. change (3 + 1) with 4 in *. rewrite Hv3.
+    unfold bindA at 1. rewrite E3.
+    destruct (N.land d3 128 =? 0) eqn:E328.
+    { rewrite bind_ret, <- Ea4. apply fin_refines; [assumption|assumption|].
+      unfold tag_encoded_len. rewrite (N.land_comm 31), Eh, (N.land_comm 128 d1), E128, (N.land_comm 128), E228. reflexivity. }
+    rewrite bind_cerr. unfold Ref, cerrA. cbn [fst snd]. auto.
+Qed.
+
+(* LimitedSource::exhausted *)
+Theorem exhausted_refines pol r : raw_ok r -> Ref (exhausted_A pol r) (src_exhausted (absA r)).
+Proof.
+  intro Hok. unfold exhausted_A, src_exhausted. change (lim (absA r)) with (rlim r).
+  destruct (rlim r) as [[|p]|] eqn:El; try (unfold Ref; cbn [fst snd]; auto).
+  destruct (requestA_spec pol 1 r Hok) as (g & r1 & Hr & Hok1 & Hd & Hl & Hg & Hle & Hge).
+  assert (Ea : absA r1 = absA r) by (unfold absA; rewrite Hd, Hl; reflexivity).
+  unfold bindA. rewrite Hr. unfold bind. rewrite tick_A. change (rem (absA r)) with (rdata r).
+  unfold avail, absA in Hle, Hge. cbn [lim rem] in Hle, Hge. rewrite El in Hle, Hge.
+  destruct (rdata r) as [|b d] eqn:Ed.
+  - change (len (@nil N)) with 0 in *. replace (g <? 1) with true by lia.
+    unfold Ref, retA. cbn [fst snd]. auto.
+  - rewrite len_cons in *. replace (g <? 1) with false by lia.
+    unfold Ref, cerrA. cbn [fst snd]. auto.
+Qed.
+
+
+Lemma firstN_ge {T} n (l : list T) : len l <= n -> firstN n l = l.
+Proof. intro H. unfold firstN, len in *. apply firstn_all2. lia. Qed.
+
+(* ---- request(n), then the first n octets of slice() ---- *)
+Theorem look_refines pol n r : raw_ok r -> Ref (look_A pol n r) (look_B n (absA r)).
+Proof.
+  intro Hok. destruct (requestA_spec pol n r Hok) as (g & r1 & Hr & Hok1 & Hd & Hl & Hg & Hle & Hge).
+  assert (Ea : absA r1 = absA r) by (unfold absA; rewrite Hd, Hl; reflexivity).
+  unfold look_A, bindA. rewrite Hr. unfold look_B, bind. rewrite tick_A.
+  unfold Ref. cbn [fst snd]. split; [|auto]. f_equal.
+  rewrite (sliceA_spec r1 Hok1), <- Hg, Hd, visible_eq.
+  unfold avail, absA in Hle, Hge |- *. cbn [lim rem] in Hle, Hge |- *. clear Hg.
+  destruct (rlim r) as [l|].
+  - destruct (N.le_gt_cases n g) as [H|H].
+    + rewrite !firstN_firstN by lia. reflexivity.
+    + assert (g = N.min l (len (rdata r))) by lia. subst g.
+      destruct (N.le_ge_cases l (len (rdata r))) as [H2|H2].
+      * replace (N.min l (len (rdata r))) with l by lia. reflexivity.
+      * replace (N.min l (len (rdata r))) with (len (rdata r)) by lia.
+        rewrite (firstN_ge (len (rdata r)) (rdata r)) by lia. rewrite (firstN_ge l (rdata r)) by lia. reflexivity.
+  - destruct (N.le_gt_cases n g) as [H|H].
+    + rewrite firstN_firstN by lia. reflexivity.
+    + assert (g = len (rdata r)) by lia. subst g. rewrite (firstN_ge (len (rdata r)) (rdata r)) by lia. reflexivity.
+Qed.
+(* ---- Primitive::with_slice_all ---- *)
+Theorem slice_then_refines pol adv r : raw_ok r -> Ref (slice_then_A pol adv r) (slice_then_B adv (absA r)).
+Proof.
+  intro Hok. unfold slice_then_A, slice_then_B, slice_all_lim, bind at 1. cbn [absA lim].
+  destruct (rlim r) as [l|] eqn:El; [|unfold Ref; cbn [fst snd]; auto].
+  destruct (requestA_spec pol l r Hok) as (g & r' & Hr & Hok' & Hd & Hl & Hg & Hle & Hge).
+  assert (Ea : absA r' = absA r) by (unfold absA; rewrite Hd, Hl; reflexivity).
+  unfold bindA at 1. rewrite Hr.
+  unfold need, bind at 1 2, tick. cbn [absA flt]. change (mkSrc (rdata r) (rlim r) None) with (absA r).
+  destruct (g <? l) eqn:E.
+  - replace (avail (absA r) <? l) with true by lia. unfold Ref, cerrA. cbn [fst snd]. auto.
+  - replace (avail (absA r) <? l) with false by lia.
+    unfold avail, absA in Hle. cbn [lim rem] in Hle. rewrite El in Hle.
+    assert (Hv : l <= vis r') by lia.
+    unfold vis in Hg. rewrite Hl, El in Hg.
+    assert (Hlen : l <= len (rdata r)) by lia.
+    unfold bind at 1, get. unfold ret at 1. cbn [rem absA].
+    unfold bindA at 1, bytesA. rewrite Hl, El. replace (l <? l) with false by lia.
+    replace (rgr r' <? l) with false by lia. rewrite Hd.
+    assert (Hc : len (firstN l (rdata r)) = l) by (apply len_firstN_le; exact Hlen).
+    destruct (adv (firstN l (rdata r))).
+    + rewrite Hc. change (mkSrc (rdata r) (rlim r) None) with (absA r). rewrite <- Ea.
+      apply Ref_bind; [apply advance_refines; assumption|].
+      intros [] r2 Hr2. unfold Ref, retA, ret. cbn [fst snd]. auto.
+    + change (mkSrc (rdata r) (rlim r) None) with (absA r). unfold Ref, retA, ret. cbn [fst snd]. auto.
+Qed.
+
 Theorem runA_refines {T} pol (p : pat T) : forall r, raw_ok r -> Ref (runA pol p r) (runB p (absA r)).
 Proof.
-  induction p as [t| |k IH|k IH|n k IH|k IH|i k IH|l k IH|k IH]; intros r Hok; cbn [runA runB].
+  induction p as [t| |k IH|k IH|n k IH|k IH|i k IH|l k IH|k IH|x|e k IH|k IH|n k IH|adv k IH]; intros r Hok; cbn [runA runB].
   - unfold Ref, retA, ret. cbn [fst snd]. auto.
   - unfold Ref, cerrA, cerr. cbn [fst snd]. auto.
   - apply Ref_bind; [exact (take_u8_refines pol r Hok)|]. intros t r' Hr'. apply IH, Hr'.
@@ -254,6 +452,11 @@ Proof.
   - apply Ref_bind.
     + unfold Ref, get_limit_A, get_lim, absA. cbn [fst snd lim]. auto.
     + intros t r' Hr'. apply IH, Hr'.
+  - unfold Ref. cbn [fst snd]. auto.
+  - apply Ref_bind; [exact (tagif_refines pol e r Hok)|]. intros t r' Hr'. apply IH, Hr'.
+  - apply Ref_bind; [exact (exhausted_refines pol r Hok)|]. intros t r' Hr'. apply IH, Hr'.
+  - apply Ref_bind; [exact (look_refines pol n r Hok)|]. intros t r' Hr'. apply IH, Hr'.
+  - apply Ref_bind; [exact (slice_then_refines pol adv r Hok)|]. intros t r' Hr'. apply IH, Hr'.
 Qed.
 
 (* ---- delivery independence: two legal sources over the same octets ---- *)
